@@ -406,6 +406,11 @@ func c11HandlerAbandons(kind string, n, k, r, others int, probeDl bool, retCode 
 // caller abandons: the handler sends m+extra responses, all of them reach the client, none is read; the caller
 // cancels (or its deadline expires, or it simply never reads again and the handler finishes).
 func c11CallerAbandons(kind string, m, extra int, how string, others int, probeDl bool) cwScenario {
+	if how == "stop-reading" {
+		// a LIVE caller that is not reading holds the read loop legitimately (back-pressure): a probe with a deadline
+		// would expire although its reply was delivered; spec_c11 counts that as a failure (unary_ok), so no deadline here
+		probeDl = false
+	}
 	pre, post, c := c11Others(others)
 	s := append([]Step{}, pre...)
 	open := Step{Op: "open", Kind: kind}
